@@ -308,16 +308,17 @@ where
 #[tracable_parser]
 #[packrat_parser]
 pub(crate) fn white_space(s: Span) -> IResult<Span, WhiteSpace> {
+    // IEEE1800-2017 Clause 5.3: white space is spaces, tabs, newlines and formfeeds
     if in_directive() {
-        map(multispace1, |x: Span| {
+        map(is_a(" \t\r\n\x0c"), |x: Span| {
             WhiteSpace::Space(Box::new(into_locate(x)))
         })(s)
     } else {
         alt((
-            map(space1, |x: Span| {
+            map(is_a(" \t\x0c"), |x: Span| {
                 WhiteSpace::Space(Box::new(into_locate(x)))
             }),
-            map(multispace1, |x: Span| {
+            map(is_a(" \t\r\n\x0c"), |x: Span| {
                 WhiteSpace::Newline(Box::new(into_locate(x)))
             }),
             map(preceded(peek(char('/')), comment), |x| {
